@@ -1,12 +1,12 @@
 """C15 configuration for /verif/check."""
 PROP = dict(
-        module='kernel', pkg='kfmt', pkgname='kfmt', harness=['kfmt/c15_test.go'],
+        module='kernel', pkg='kfmt', pkgname='kfmt', harness=['kfmt/c15_test.go', 'kfmt/c15_callsite_test.go'],
         n=dict(quick=1500, thorough=60000),
         anchors='C15.json', expr_imports=['Firefly.Gen.C15'],
         nontrivial=r'^F .*\| ok [1-9]',
         rule='one evaluation = one Fprintf call on the real code captured through an io.Writer (F line: replayed through the '
              'Lean model, and the bytes written compared with the spec render) or one testing.AllocsPerRun measurement of the '
-             'same call with pre-boxed arguments and a sink that stores nothing (A line); distinct = by hash of the line; '
+             'same call with pre-boxed arguments and a sink that stores nothing (A line) or of a call-site-shaped caller (S line); distinct = by hash of the line; '
              'non-trivial = the call wrote at least one chunk',
         trusted=['testing.AllocsPerRun / runtime.MemStats for the allocation clause'],
         assumptions=['64-bit Go int (amd64)', 'sequential use of the package-level scratch buffers numFmtBuf/singleByte',
@@ -25,7 +25,14 @@ PROP = dict(
                    'on grammar-directed and random formats.',
         level_note='Partial: the "no heap allocation" clause is MEASURED, not proved (it is a property of the Go 1.23 compiler\'s '
                    'escape analysis): testing.AllocsPerRun over every generated case whose output is <= 4096 bytes, pre-boxed '
-                   'arguments, non-allocating sink; a non-zero count is an oracle failure (clause=no-alloc). Trusted: Lean kernel '
+                   'arguments, non-allocating sink (A lines), plus 13 call-site-shaped callers (S lines: noinline functions that build their '
+                   'arguments from run-time values as kernel callers do - []byte slicing a local array of 1/7/32/33/100 bytes incl. the '
+                   'in-tree EISA-id shape, string(b) of a local of <= 32 bytes, small integers of every kind, large local '
+                   'uint64/uintptr/negative values, bools, a mix, no arguments - each through Fprintf with a non-allocating writer and '
+                   'through Printf into the early ring buffer), which see allocations the formatter causes in its CALLER when its '
+                   'parameters leak; all measure 0 on the unchanged tree under go1.23. Left out because the allocation is the '
+                   'caller\'s own: string(b) of more than 32 bytes (measured 1: the conversion needs a heap buffer). '
+                   'A non-zero count is an oracle failure (clause=no-alloc). Trusted: Lean kernel '
                    '(+ propext, Classical.choice, Quot.sound), the theorem statements, the harness (correspondence is differential '
                    'testing on generated inputs, not a proof about the Go code).',
 )
